@@ -41,6 +41,26 @@
 (*                     calls ("cancel", "sched", "run": the call takes effect when released)    *)
 (*   Block(t)          a call arrives at a delaying interface and waits                         *)
 (*   Release(t) / ReleaseSched(t, d)   environment: a delayed reply / call goes through         *)
+(*   SetAccounts(a)    environment: from now on the accounts provider answers a - a set of      *)
+(*                     active validators (possibly empty) or an error.  Every lookup of the     *)
+(*                     controller (New, epoch ticker, prepare-for-epoch, the three refreshes)   *)
+(*                     reads the answer in force when it is made (a delayed lookup: when it is  *)
+(*                     released), so the answer is an input of each CALL, not of the instance.  *)
+(*                                                                                              *)
+(* The instance and its history.  A behaviour between Start and Crash is the history of ONE     *)
+(* controller instance: a sequence of calls (ticker runs, prepare-for-epoch runs, head events   *)
+(* with the refreshes they start, job starts) with per-call inputs (clock, roots, the node's    *)
+(* duties for the version in force, the accounts answer).  What the property makes persistent   *)
+(* on the instance is named Persistent below: the job table, the roots of the last head event,  *)
+(* the ticker's once-per-epoch guard, and the instant of the start-up.  The outcome of a call - *)
+(* which jobs it removes and sets up, and THAT IT ENDS - depends on its own inputs and on       *)
+(* Persistent only; in particular not on which branch an earlier call left through (a lookup    *)
+(* that failed, an empty set of validators, nothing to schedule).  RefreshCompletes states the  *)
+(* second half: a goroutine of the controller that is not waiting at an interface of the        *)
+(* environment can take its next step.  Deviation names control designs that are right on every *)
+(* fresh instance and wrong over histories (TLC must reject them: the check runs them as a      *)
+(* self-test): "LeakPropLock" = the proposer refresh takes a lock on the instance and gives it  *)
+(* back where scheduleProposals returns, not where the refresh returns early.                   *)
 EXTENDS Integers, FiniteSets, Sequences, TLC, ChainTime
 
 CONSTANTS MaxSlot,      \* the clock stops here
@@ -50,7 +70,10 @@ CONSTANTS MaxSlot,      \* the clock stops here
           Gates,        \* interfaces whose replies / calls may be delayed across other steps (subset of GateKinds)
           Interleave,   \* TRUE: the scheduler's timer may start a job between any two steps of the controller's goroutines
           Cfgs,         \* chain / controller configurations to start from
-          OraclesFor(_) \* duty oracles to start from, per configuration
+          OraclesFor(_),\* duty oracles to start from, per configuration
+          MaxAccts,     \* bound on the number of times the accounts provider changes its answer
+          AnswersFor(_),\* answers the accounts provider may change to, per configuration
+          Deviation     \* named control designs (see above); {} = the intended design
 
 VARIABLES cfg,      \* configuration (never changes): [p slots per epoch, d slot duration (s), ep epochs per sync
                     \* committee period, prep syncCommitteePreparationEpochs, fork Altair fork epoch, ft fast-track
@@ -63,10 +86,16 @@ VARIABLES cfg,      \* configuration (never changes): [p slots per epoch, d slot
           fetched,      \* <<kind, key>> |-> version used by the latest fetch
           shown,        \* <<kind, key>> |-> version that a head event has shown to be in force
           hold,         \* interfaces that currently delay (subset of Gates)
-          nReorg, nCrash, nSpur
+          acct,         \* what the accounts provider answers now: [err, vals]
+          lk,           \* Deviation only: the lock a proposer refresh holds ("free", "held", "leaked" = its holder has returned)
+          nReorg, nCrash, nSpur, nAcct
 
 vars == <<cfg, oracle, now, depVer, up, jobs, tasks, done, seen, latestTick, tickDue, startedAt,
-          fetched, shown, hold, nReorg, nCrash, nSpur>>
+          fetched, shown, hold, acct, lk, nReorg, nCrash, nSpur, nAcct>>
+
+\* the state the property makes persistent on a controller instance (everything else a call leaves behind - goroutines
+\* that have returned, locks, memos - must not influence a later call)
+Persistent == <<jobs, seen, latestTick, startedAt>>
 
 P == cfg.p
 D == cfg.d
@@ -102,6 +131,11 @@ SyncVer(p) == VerOf((p - 1) * EP)
 RootOf(b) == <<b, VerOf(b)>>
 KeyVer(k, key) == CASE k = "att" -> AttVer(key) [] k = "prop" -> PropVer(key) [] k = "sync" -> SyncVer(key)
 
+\* answers of the accounts provider: an error, or the validators that are active (any subset of those with an account)
+Answer(err, vs) == [err |-> err, vals |-> vs]
+AllAnswers(c) == {Answer(TRUE, {})} \cup {Answer(FALSE, S) : S \in SUBSET c.vals}
+ActiveNow == IF acct.err THEN {} ELSE acct.vals      \* the indices a lookup made now yields (none when it fails)
+
 \* what the node returns now
 AttReply(e) == {[slot |-> r.slot, v |-> r.v] : r \in {x \in oracle.att : x.e = e /\ x.ver = AttVer(e)}}
 PropReply(e) == {[slot |-> r.slot, v |-> r.v] : r \in {x \in oracle.prop : x.e = e /\ x.ver = PropVer(e)}}
@@ -136,13 +170,16 @@ PrepTime(e) == StartOfEpoch(C, e - 1) + (P * D + D) \div 2
 Due(nm) == jobs[nm].time < SlotStart(now + 1)
 Earliest(nm) == \A o \in DOMAIN jobs : jobs[o].time >= jobs[nm].time
 
-(* A task is one goroutine of the controller (for the "sched" stage: the goroutines it has     *)
+(* A task is one goroutine of the controller (for the "sched" stage: the goroutines it has      *)
 (* spawned, one per duty).  id: tasks are individuals (two refreshes of one epoch under way at  *)
-(* the same point are two).  pos >= 0: a refresh, pos = index of the next name to cancel (0: the *)
-(* cancel loop has not begun), can = slots whose CancelJob succeeded, acd = accounts obtained.  *)
+(* the same point are two).  pos >= 0: a refresh, pos = index of the next name to cancel (0: the*)
+(* cancel loop has not begun), can = slots whose CancelJob succeeded, acd = accounts asked for. *)
 (* blk: the call the task is about to make waits at a delaying interface.                       *)
 Task(k, key, nc, st) == [id |-> -1, k |-> k, key |-> key, nc |-> nc, st |-> st, ver |-> -1, duties |-> {},
-                         pos |-> -1, can |-> {}, acd |-> FALSE, blk |-> FALSE]
+                         pos |-> -1, can |-> {}, acd |-> FALSE, blk |-> FALSE, av |-> {}]
+\* av: the validator indices the goroutine asks the node about (the answer of ITS accounts lookup).  A schedule* call
+\* with no indices returns at once: such goroutines are not spawned.
+WithAv(ts, av) == IF av = {} THEN <<>> ELSE [i \in 1..Len(ts) |-> [ts[i] EXCEPT !.av = av]]
 RefreshTask(k, key) == [Task(k, key, FALSE, CASE k = "att" -> "check" [] k = "prop" -> "begin" [] k = "sync" -> "cancel")
                             EXCEPT !.pos = IF k = "sync" THEN 1 ELSE 0]
 IsRefresh(t) == t.pos >= 0
@@ -153,7 +190,10 @@ Spawn(ts, new) == IF new = <<>> THEN ts ELSE Spawn(ts \cup {[Head(new) EXCEPT !.
 GateKinds == {"att", "prop", "acct", "cancel", "sched", "run"}
 Quiescent == tasks = {}
 \* a delayed reply / call (a goroutine waiting at one of the scripted interfaces) may stay
-Parked(t) == t.st = "held" \/ t.blk \/ (t.st = "sched" /\ \A d \in t.duties : d.blk)
+\* Deviation "LeakPropLock": a proposer refresh waits for the lock at its first step
+LockWait(t) == "LeakPropLock" \in Deviation /\ t.st = "begin" /\ t.k = "prop" /\ lk # "free"
+\* ... which is waiting for another goroutine of the controller, fine as long as that one is alive
+Parked(t) == t.st = "held" \/ t.blk \/ (t.st = "sched" /\ \A d \in t.duties : d.blk) \/ (LockWait(t) /\ lk = "held")
 Settled == \A t \in tasks : Parked(t)
 
 -----------------------------------------------------------------------------
@@ -169,7 +209,9 @@ Init ==
     /\ startedAt = [slot |-> 0, waited |-> TRUE]
     /\ fetched = Empty /\ shown = Empty
     /\ hold = {}
-    /\ nReorg = 0 /\ nCrash = 0 /\ nSpur = 0
+    /\ acct \in {Answer(FALSE, cfg.vals)} \cup (IF MaxAccts > 0 THEN AnswersFor(cfg) ELSE {})
+    /\ lk = "free"
+    /\ nReorg = 0 /\ nCrash = 0 /\ nSpur = 0 /\ nAcct = 0
 
 SyncTasksAtStart(e) ==
     IF e < cfg.fork THEN <<>>
@@ -177,27 +219,28 @@ SyncTasksAtStart(e) ==
          \o (IF PeriodStart(Period(e) + 1) - e <= Prep THEN <<Task("sync", Period(e) + 1, TRUE, "fetch")>> ELSE <<>>)
 
 (* New(): duties of the rest of this epoch and of the next; only strictly later slots unless we *)
-(* waited for genesis.                                                                          *)
+(* waited for genesis.  New() fails when an accounts lookup fails (no instance: not explored).  *)
 Start(w) ==
     /\ ~up
+    /\ ~acct.err
     /\ w => (now = 0 /\ done = Empty)
     /\ up' = TRUE
     /\ LET e == Epoch(now) IN
-        tasks' = Spawn({}, <<Task("prop", e, ~w, "fetch"), Task("att", e, ~w, "fetch"), Task("att", e + 1, TRUE, "fetch")>>
-                           \o SyncTasksAtStart(e))
+        tasks' = Spawn({}, WithAv(<<Task("prop", e, ~w, "fetch"), Task("att", e, ~w, "fetch"), Task("att", e + 1, TRUE, "fetch")>>
+                                  \o SyncTasksAtStart(e), ActiveNow))
     /\ jobs' = Empty
     /\ seen' = [has |-> FALSE, e |-> 0, prev |-> <<0, 0>>, cur |-> <<0, 0>>]
     /\ latestTick' = -1 /\ tickDue' = FALSE
     /\ startedAt' = [slot |-> now, waited |-> w]
-    /\ fetched' = Empty /\ shown' = Empty /\ hold' = {}
-    /\ UNCHANGED <<cfg, oracle, now, depVer, done, nReorg, nCrash, nSpur>>
+    /\ fetched' = Empty /\ shown' = Empty /\ hold' = {} /\ lk' = "free"
+    /\ UNCHANGED <<cfg, oracle, now, depVer, done, acct, nReorg, nCrash, nSpur, nAcct>>
 
 Crash ==
     /\ up /\ Quiescent
     /\ nCrash < MaxCrashes
     /\ nCrash' = nCrash + 1
-    /\ up' = FALSE /\ jobs' = Empty /\ tasks' = {} /\ tickDue' = FALSE
-    /\ UNCHANGED <<cfg, oracle, now, depVer, done, seen, latestTick, startedAt, fetched, shown, nReorg, nSpur, hold>>
+    /\ up' = FALSE /\ jobs' = Empty /\ tasks' = {} /\ tickDue' = FALSE /\ lk' = "free"
+    /\ UNCHANGED <<cfg, oracle, now, depVer, done, seen, latestTick, startedAt, fetched, shown, nReorg, nSpur, hold, acct, nAcct>>
 
 \* Env_TimelyScheduler: the clock does not pass a job's slot without the job having been started
 Timely == up => \A nm \in DOMAIN jobs : ~Due(nm)
@@ -206,7 +249,7 @@ AdvanceStep ==
     /\ up => (Settled /\ ~tickDue)
     /\ now' = now + 1
     /\ tickDue' = (up /\ now + 1 = First(Epoch(now + 1)))
-    /\ UNCHANGED <<cfg, oracle, depVer, up, jobs, tasks, done, seen, latestTick, startedAt, fetched, shown, nReorg, nCrash, nSpur, hold>>
+    /\ UNCHANGED <<cfg, oracle, depVer, up, jobs, tasks, done, seen, latestTick, startedAt, fetched, shown, nReorg, nCrash, nSpur, hold, acct, lk, nAcct>>
 \* Env_SyncRootShallow, second half: a reorganisation of the root that fixes the next sync committee is shown
 \* by a head event before the period's first epoch is over (the controller looks at that root only then)
 SyncRootShown ==
@@ -226,7 +269,17 @@ Reorg(b) ==
     /\ up => Settled
     /\ depVer' = [depVer EXCEPT ![b] = @ + 1]
     /\ nReorg' = nReorg + 1
-    /\ UNCHANGED <<cfg, oracle, now, up, jobs, tasks, done, seen, latestTick, tickDue, startedAt, fetched, shown, nCrash, nSpur, hold>>
+    /\ UNCHANGED <<cfg, oracle, now, up, jobs, tasks, done, seen, latestTick, tickDue, startedAt, fetched, shown, nCrash, nSpur, hold, acct, lk, nAcct>>
+
+\* the accounts provider changes its answer (validators activate / exit, the account manager fails / recovers)
+SetAccountsStep(a) ==
+    /\ up => Settled
+    /\ acct' = a
+    /\ UNCHANGED <<cfg, oracle, now, depVer, up, jobs, tasks, done, seen, latestTick, tickDue, startedAt, fetched, shown, hold, lk, nReorg, nCrash, nSpur>>
+SetAccounts(a) ==
+    /\ a \in AnswersFor(cfg) /\ a # acct
+    /\ nAcct < MaxAccts /\ nAcct' = nAcct + 1
+    /\ SetAccountsStep(a)
 
 -----------------------------------------------------------------------------
 (* The epoch ticker: proposals of this epoch, sync committee periods at the fork epoch and Prep *)
@@ -238,11 +291,15 @@ SyncTasksAtTick(e) ==
      ELSE <<>>)
     \o (IF e >= cfg.fork /\ e % EP = EP - Prep THEN <<Task("sync", Period(e) + 1, FALSE, "fetch")>> ELSE <<>>)
 
+(* The ticker marks the epoch as run, then obtains the accounts: when that fails it gives up for*)
+(* this epoch (nothing is set up, not even the prepare-for-epoch job); with no active validator *)
+(* it goes on (there may be some in the next epoch).                                            *)
 TickBody(e) ==
     /\ latestTick' = e
-    /\ tasks' = Spawn(tasks, <<Task("prop", e, FALSE, "fetch")>> \o SyncTasksAtTick(e))
-    /\ jobs' = IF <<"prepepoch", e + 1>> \in DOMAIN jobs THEN jobs
-               ELSE Put(jobs, <<"prepepoch", e + 1>>, [time |-> PrepTime(e + 1), vals |-> {}, ver |-> 0])
+    /\ IF acct.err THEN UNCHANGED <<tasks, jobs>>
+       ELSE /\ tasks' = Spawn(tasks, WithAv(<<Task("prop", e, FALSE, "fetch")>> \o SyncTasksAtTick(e), ActiveNow))
+            /\ jobs' = IF <<"prepepoch", e + 1>> \in DOMAIN jobs THEN jobs
+                       ELSE Put(jobs, <<"prepepoch", e + 1>>, [time |-> PrepTime(e + 1), vals |-> {}, ver |-> 0, av |-> {}])
 
 EpochTick ==
     /\ up /\ Settled
@@ -253,21 +310,22 @@ EpochTick ==
     /\ IF latestTick >= Epoch(now)
        THEN UNCHANGED <<latestTick, tasks, jobs>>
        ELSE TickBody(Epoch(now))
-    /\ UNCHANGED <<cfg, oracle, now, depVer, up, done, seen, startedAt, fetched, shown, nReorg, nCrash, hold>>
+    /\ UNCHANGED <<cfg, oracle, now, depVer, up, done, seen, startedAt, fetched, shown, nReorg, nCrash, hold, acct, lk, nAcct>>
 
 -----------------------------------------------------------------------------
 (* schedule{Attestations,Proposals,SyncCommitteeMessages}: fetch, filter, one ScheduleJob each. *)
-Others == <<cfg, oracle, now, depVer, up, seen, latestTick, tickDue, startedAt, shown, nReorg, nCrash, nSpur, hold>>
+Others0 == <<cfg, oracle, now, depVer, up, seen, latestTick, tickDue, startedAt, shown, nReorg, nCrash, nSpur, hold, acct, nAcct>>
+Others == <<Others0, lk>>
 Swap(t, S) == tasks' = (tasks \ {t}) \cup S
 
 Fetch(t) ==
     /\ t \in tasks /\ t.st = "fetch"
-    /\ LET ver == KeyVer(t.k, t.key)
-           reply == CASE t.k = "att" -> Merge(t.key, AttReply(t.key))
-                      [] t.k = "prop" -> {[slot |-> r.slot, vals |-> {r.v}] : r \in {x \in PropReply(t.key) : InEpoch(t.key, x.slot)}}
-                      [] t.k = "sync" -> IF SyncReply(t.key) = {} THEN {} ELSE {[slot |-> -1, vals |-> SyncReply(t.key)]}
+    /\ LET ver == KeyVer(t.k, t.key)       \* the node answers for the indices asked about
+           reply == CASE t.k = "att" -> Merge(t.key, {r \in AttReply(t.key) : r.v \in t.av})
+                      [] t.k = "prop" -> {[slot |-> r.slot, vals |-> {r.v}] : r \in {x \in PropReply(t.key) : InEpoch(t.key, x.slot) /\ x.v \in t.av}}
+                      [] t.k = "sync" -> IF SyncReply(t.key) \cap t.av = {} THEN {} ELSE {[slot |-> -1, vals |-> SyncReply(t.key) \cap t.av]}
        IN /\ Swap(t, {[t EXCEPT !.st = IF t.k \in hold THEN "held" ELSE "filter", !.ver = ver, !.duties = reply]})
-          /\ fetched' = Put(fetched, <<t.k, t.key>>, ver)
+          /\ fetched' = Put(fetched, <<t.k, t.key>>, [ver |-> ver, av |-> t.av])
     /\ UNCHANGED <<jobs, done>> /\ UNCHANGED Others
 
 \* the job a duty's goroutine asks the scheduler for first
@@ -281,16 +339,18 @@ Filter(t) ==
                    ELSE {d \in t.duties : Survives(d.slot, t.nc)}
            calls == {[slot |-> d.slot, vals |-> d.vals, jk |-> FirstJob(t.k), blk |-> FALSE] : d \in kept}
        IN Swap(t, IF kept = {} THEN {} ELSE {[t EXCEPT !.st = "sched", !.duties = calls]})
-    /\ UNCHANGED <<jobs, done, fetched>> /\ UNCHANGED Others
+    \* (Deviation: scheduleProposals has returned into the refresh, which gives the lock back)
+    /\ lk' = IF IsRefresh(t) /\ t.k = "prop" /\ lk = "held" THEN "free" ELSE lk
+    /\ UNCHANGED <<jobs, done, fetched>> /\ UNCHANGED Others0
 
 \* a name is claimed once: ScheduleJob on an existing name fails and changes nothing
-AddJob(js, k, n, vals, ver) ==
-    IF <<k, n>> \in DOMAIN js THEN js ELSE Put(js, <<k, n>>, [time |-> JobTime(k, n), vals |-> vals, ver |-> ver])
+AddJob(js, k, n, vals, ver, av) ==
+    IF <<k, n>> \in DOMAIN js THEN js ELSE Put(js, <<k, n>>, [time |-> JobTime(k, n), vals |-> vals, ver |-> ver, av |-> av])
 
 \* one ScheduleJob call of a duty's goroutine (a proposer duty asks for the early job, then for the proposal)
 SchedOne(t, d) ==
     /\ t \in tasks /\ t.st = "sched" /\ d \in t.duties
-    /\ jobs' = AddJob(jobs, d.jk, d.slot, d.vals, t.ver)
+    /\ jobs' = AddJob(jobs, d.jk, d.slot, d.vals, t.ver, t.av)
     /\ LET rest == (t.duties \ {d}) \cup (IF d.jk = "early" THEN {[d EXCEPT !.jk = "prop", !.blk = FALSE]} ELSE {})
        IN Swap(t, IF rest = {} THEN {} ELSE {[t EXCEPT !.duties = rest]})
     /\ UNCHANGED <<done, fetched>> /\ UNCHANGED Others
@@ -309,30 +369,43 @@ CancelNames(t) == {CancelSeq(t)[i] : i \in 1..Len(CancelSeq(t))}
 (* Cancelling and the accounts are behind it: the refresh goes on to fetch and reschedule.      *)
 (* attester: the current slot (clock read now) is rescheduled only if the CancelJob for its job *)
 (* succeeded - a job that had started (timer, fast track) is beyond cancelling and must not be  *)
-(* set up again; proposer: never (Env_HeadImpliesBlock); sync: the current slot may be scheduled *)
+(* set up again; proposer: never (Env_HeadImpliesBlock); sync: the current slot may be scheduled*)
 Decide(t) ==
     [t EXCEPT !.blk = FALSE, !.st = "fetch", !.acd = TRUE, !.pos = Len(CancelSeq(t)) + 1,
               !.nc = CASE t.k = "att" -> now \notin t.can
                        [] t.k = "prop" -> TRUE
                        [] t.k = "sync" -> FALSE]
+(* ... unless its accounts lookup failed or named no active validator: then the refresh is over *)
+(* (it has cancelled the jobs made for the superseded root; there is nothing it could ask the   *)
+(* node about).  It RETURNS: nothing of it stays behind on the instance.                        *)
+After(t) == IF t.av = {} THEN {} ELSE {Decide(t)}
 \* the cancel loop begins (or, with nothing to cancel, is over)
 BeginCancel(t) ==
-    IF Len(CancelSeq(t)) > 0 THEN [t EXCEPT !.blk = FALSE, !.st = "cancel", !.pos = 1]
-    ELSE IF t.acd THEN Decide(t) ELSE [t EXCEPT !.blk = FALSE, !.st = "accounts", !.pos = 1]
+    IF Len(CancelSeq(t)) > 0 THEN {[t EXCEPT !.blk = FALSE, !.st = "cancel", !.pos = 1]}
+    ELSE IF t.acd THEN After(t) ELSE {[t EXCEPT !.blk = FALSE, !.st = "accounts", !.pos = 1]}
+(* The refresh t goes on as S; S = {}: it has returned without obtaining duties - the reply     *)
+(* last obtained for its epoch / period was for a root that is gone, so there is no obtained    *)
+(* duty left to speak of.  (Deviation: a lock it holds is never given back.)                    *)
+Cont(t, S) ==
+    /\ Swap(t, S)
+    /\ fetched' = IF S = {} THEN Drop(fetched, {<<t.k, t.key>>}) ELSE fetched
+    /\ lk' = IF S = {} /\ t.k = "prop" /\ lk = "held" THEN "leaked" ELSE lk
 
 \* attester refresh: JobExists("Prepare for epoch"): the epoch is not prepared yet, nothing to refresh
 DoCheck(t) ==
     /\ t \in tasks /\ t.st = "check"
     /\ IF <<"prepepoch", t.key>> \in DOMAIN jobs
-       THEN Swap(t, {})
-       ELSE Swap(t, {BeginCancel(t)}) \/ Swap(t, {[t EXCEPT !.st = "accounts"]})
-    /\ UNCHANGED <<jobs, done, fetched>> /\ UNCHANGED Others
+       THEN Swap(t, {}) /\ UNCHANGED <<fetched, lk>>
+       ELSE Cont(t, BeginCancel(t)) \/ Cont(t, {[t EXCEPT !.st = "accounts"]})
+    /\ UNCHANGED <<jobs, done>> /\ UNCHANGED Others0
 
 \* proposer refresh: which of the two comes first is left open
 DoBegin(t) ==
     /\ t \in tasks /\ t.st = "begin"
-    /\ Swap(t, {BeginCancel(t)}) \/ Swap(t, {[t EXCEPT !.st = "accounts"]})
-    /\ UNCHANGED <<jobs, done, fetched>> /\ UNCHANGED Others
+    /\ ~LockWait(t)
+    /\ Swap(t, BeginCancel(t)) \/ Swap(t, {[t EXCEPT !.st = "accounts"]})
+    /\ lk' = IF "LeakPropLock" \in Deviation /\ t.k = "prop" THEN "held" ELSE lk
+    /\ UNCHANGED <<jobs, done, fetched>> /\ UNCHANGED Others0
 
 \* one CancelJob / CancelJobIfExists
 DoCancel(t) ==
@@ -342,16 +415,18 @@ DoCancel(t) ==
            hit == nm \in DOMAIN jobs
            t1 == [t EXCEPT !.blk = FALSE, !.can = IF hit /\ t.k = "att" THEN @ \cup {nm[2]} ELSE @]
        IN /\ jobs' = IF hit THEN Drop(jobs, {nm}) ELSE jobs
-          /\ Swap(t, {IF t.pos < Len(seq) THEN [t1 EXCEPT !.pos = @ + 1]
-                      ELSE IF t.acd THEN Decide(t1)
-                      ELSE [t1 EXCEPT !.st = "accounts", !.pos = @ + 1]})
-    /\ UNCHANGED <<done, fetched>> /\ UNCHANGED Others
+          /\ Cont(t, IF t.pos < Len(seq) THEN {[t1 EXCEPT !.pos = @ + 1]}
+                     ELSE IF t.acd THEN After(t1)
+                     ELSE {[t1 EXCEPT !.st = "accounts", !.pos = @ + 1]})
+    /\ UNCHANGED done /\ UNCHANGED Others0
 
-\* the validating accounts of the epoch arrive
+\* the accounts provider answers the refresh's lookup (attester / proposer: the validating accounts of the epoch;
+\* sync committee: the eligible accounts): the answer in force now
 DoAccounts(t) ==
     /\ t \in tasks /\ t.st = "accounts"
-    /\ Swap(t, {IF t.pos = 0 THEN BeginCancel([t EXCEPT !.acd = TRUE]) ELSE Decide(t)})
-    /\ UNCHANGED <<jobs, done, fetched>> /\ UNCHANGED Others
+    /\ LET t1 == [t EXCEPT !.acd = TRUE, !.av = ActiveNow]
+       IN Cont(t, IF t.pos = 0 THEN BeginCancel(t1) ELSE After(t1))
+    /\ UNCHANGED <<jobs, done>> /\ UNCHANGED Others0
 
 RunNow(js, dn, nm) ==       \* RunJobIfExists on a duty job: <<jobs', done'>>
     IF nm \in DOMAIN js
@@ -373,8 +448,8 @@ DoFtRun(t) ==
     /\ Swap(t, IF t.st = "ftattrun" THEN {[t EXCEPT !.blk = FALSE, !.st = "ftsync"]} ELSE {})
     /\ UNCHANGED fetched /\ UNCHANGED Others
 
-(* Delaying interfaces.  The call a task is about to make goes to the accounts provider ("acct": *)
-(* ValidatingAccountsForEpoch, i.e. attester and proposer refreshes) or to the scheduler         *)
+(* Delaying interfaces.  The call a task is about to make goes to the accounts provider ("acct":*)
+(* ValidatingAccountsForEpoch, i.e. attester and proposer refreshes) or to the scheduler        *)
 (* ("cancel", "run"; "sched" for the ScheduleJob of a duty goroutine).  While the interface is  *)
 (* delaying, the call waits (Block) until the environment lets it through (Release).            *)
 GateOf(t) == CASE t.st = "accounts" /\ t.k \in {"att", "prop"} -> "acct"
@@ -408,7 +483,7 @@ NoOverlap == \A t \in tasks, u \in tasks : (t # u /\ t.k = u.k /\ t.key = u.key)
 
 \* a step that is taken at once (see Internal)
 LocalReady(t) ==
-    /\ ~Parked(t)
+    /\ ~Parked(t) /\ ~LockWait(t)
     /\ \/ t.st \in {"begin", "fetch", "filter"}
        \/ t.st = "accounts" /\ ~t.blk /\ GateOf(t) \notin hold
        \/ ~t.blk /\ GateOf(t) \in hold
@@ -443,7 +518,7 @@ HeadEvent(optional) ==
           /\ shown' = LET s1 == IF prevChanged /\ ~optional THEN Put(shown, <<"att", e>>, VerOf(e - 1)) ELSE shown
                           s2 == IF curChanged THEN Put(Put(s1, <<"prop", e>>, VerOf(e)), <<"att", e + 1>>, VerOf(e)) ELSE s1
                       IN s2
-    /\ UNCHANGED <<cfg, oracle, now, depVer, up, jobs, done, latestTick, tickDue, startedAt, fetched, nReorg, nCrash, nSpur, hold>>
+    /\ UNCHANGED <<cfg, oracle, now, depVer, up, jobs, done, latestTick, tickDue, startedAt, fetched, nReorg, nCrash, nSpur, hold, acct, lk, nAcct>>
 
 -----------------------------------------------------------------------------
 (* The scheduler starts a job at its time (earliest first) - with Interleave, between any two   *)
@@ -459,12 +534,12 @@ FireStep(nm, headUpToDate) ==
        IN CASE k = "prepepoch" ->       \* prepareForEpoch obtains the accounts itself: explored with a prompt provider only
                  /\ "acct" \notin hold
                  /\ jobs' = rest /\ done' = done
-                 /\ tasks' = Spawn(tasks, <<Task("att", n, FALSE, "fetch")>>)
+                 /\ tasks' = Spawn(tasks, WithAv(<<Task("att", n, FALSE, "fetch")>>, ActiveNow))   \* failed / empty: it returns
             [] k \in {"att", "prop", "syncmsg"} ->
                  /\ jobs' = rest /\ tasks' = tasks
                  /\ done' = BagAdd(done, [k |-> k, n |-> n, vals |-> j.vals])
             [] k = "syncprep" ->
-                 /\ jobs' = AddJob(rest, "syncmsg", n, j.vals, j.ver)
+                 /\ jobs' = AddJob(rest, "syncmsg", n, j.vals, j.ver, j.av)
                  /\ done' = done /\ tasks' = tasks
             [] k = "early" ->       \* proposeEarly: run the proposal now if the head is up to date
                  /\ tasks' = tasks
@@ -482,7 +557,7 @@ Hold(k, on) ==
     /\ k \in Gates
     /\ on = (k \notin hold)
     /\ hold' = IF on THEN hold \cup {k} ELSE hold \ {k}
-    /\ UNCHANGED <<cfg, oracle, now, depVer, up, jobs, tasks, done, seen, latestTick, tickDue, startedAt, fetched, shown, nReorg, nCrash, nSpur>>
+    /\ UNCHANGED <<cfg, oracle, now, depVer, up, jobs, tasks, done, seen, latestTick, tickDue, startedAt, fetched, shown, nReorg, nCrash, nSpur, acct, lk, nAcct>>
 
 \* a delayed duty reply is delivered / a delayed call goes through
 Release(t) ==
@@ -497,14 +572,14 @@ ReleaseSched(t, d) ==
     /\ t \in tasks /\ t.st = "sched" /\ d \in t.duties /\ d.blk
     /\ SchedOne(t, d)
 
-(* The controller's goroutines take their steps one at a time, in any order - up to two          *)
+(* The controller's goroutines take their steps one at a time, in any order - up to two         *)
 (* reductions that lose no reachable job table / executed-duty log and no invariant violation   *)
 (* (every invariant is a conjunction over job names or over executed duties, or speaks of       *)
-(* quiescent states only):                                                                       *)
+(* quiescent states only):                                                                      *)
 (*  - a step that touches neither the job table nor the executed duties and that nothing can    *)
-(*    disable (DoBegin, an undelayed DoAccounts, Fetch, Filter, Block) commutes with every other *)
-(*    step: it is taken at once (lowest task id first);                                          *)
-(*  - tasks that work on disjoint job names (different duty kind or epoch) commute: while no two *)
+(*    disable (DoBegin, an undelayed DoAccounts, Fetch, Filter, Block) commutes with every other*)
+(*    step: it is taken at once (lowest task id first);                                         *)
+(*  - tasks that work on disjoint job names (different duty kind or epoch) commute: while no two*)
 (*    a task that shares no name with any other active task runs first (lowest id first); all   *)
 (*    interleavings are explored among tasks that share names (two refreshes / fetches of one   *)
 (*    epoch, the fast track beside an attester or sync committee refresh).  The ScheduleJob     *)
@@ -522,7 +597,7 @@ StepsOf(t, alone) ==
           /\ IF "sched" \in hold THEN BlockSched(t, FirstDuty(W))
              ELSE IF alone THEN SchedOne(t, FirstDuty(W))
              ELSE \E d \in W : SchedOne(t, d)
-Active == {t \in tasks : ~Parked(t)}
+Active == {t \in tasks : ~Parked(t) /\ ~LockWait(t)}
 \* the job names a task may still touch
 NamesOf(t) ==
     CASE t.k = "att" -> {<<"att", x>> : x \in First(t.key)..Last(t.key)}
@@ -546,6 +621,7 @@ Next ==
     \/ \E nm \in DOMAIN jobs, h \in BOOLEAN : Fire(nm, h)
     \/ Internal
     \/ \E k \in Gates, on \in BOOLEAN : Hold(k, on)
+    \/ \E a \in AnswersFor(cfg) : SetAccounts(a)
     \/ \E t \in tasks : Release(t) \/ (t.st = "sched" /\ \E d \in t.duties : ReleaseSched(t, d))
 
 Spec == Init /\ [][Next]_vars
@@ -555,6 +631,7 @@ Spec == Init /\ [][Next]_vars
 TypeOK ==
     /\ now \in 0..MaxSlot
     /\ \A nm \in DOMAIN jobs : nm[1] \in DutyKinds \cup {"early", "prepepoch"}
+    /\ acct \in AllAnswers(cfg) /\ lk \in {"free", "held", "leaked"}
 
 \* "timed at the slot start plus the configured delay"
 JobTimeRight == \A nm \in DOMAIN jobs : nm[1] # "prepepoch" => jobs[nm].time = JobTime(nm[1], nm[2])
@@ -564,11 +641,12 @@ OracleVals(k, n, ver) ==
       [] k \in {"prop", "early"} -> {r.v : r \in {x \in oracle.prop : x.e = Epoch(n) /\ x.ver = ver /\ x.slot = n}}
       [] k \in {"syncprep", "syncmsg"} -> {r.v : r \in {x \in oracle.sync : x.p = Period(Epoch(n + 1)) /\ x.ver = ver}}
 
-\* "covering exactly the validators with that duty" (of the reply the job was made from), and
+\* "covering exactly the validators with that duty" (of the reply the job was made from: the node was asked about the
+\* validators that the call's own accounts lookup named), and
 \* "ignores duties outside the requested epoch": there is a job only where the oracle has a duty of that epoch
 JobCoversExactly ==
     \A nm \in DOMAIN jobs : nm[1] # "prepepoch" =>
-        /\ jobs[nm].vals = OracleVals(nm[1], nm[2], jobs[nm].ver)
+        /\ jobs[nm].vals = OracleVals(nm[1], nm[2], jobs[nm].ver) \cap jobs[nm].av
         /\ jobs[nm].vals # {}
 
 \* "no slot is ever proposed or attested for twice" (sync messages likewise)
@@ -593,24 +671,25 @@ SyncWindowRight ==
 
 EpochTickOnce == latestTick <= Epoch(now)
 
-(* "no obtained future duty is left without a job": at quiescence every duty of the reply last   *)
-(* obtained for an epoch / period, for a slot still to come, has its job (or has been run early) *)
+(* "no obtained future duty is left without a job": at quiescence every duty of the reply last  *)
+(* obtained for an epoch / period, for a slot still to come, has its job (or has been run early)*)
 Covered(k, n) == <<k, n>> \in DOMAIN jobs \/ \E x \in DOMAIN done : x.k = k /\ x.n = n
 NoFutureDutyUnscheduled ==
     (up /\ Quiescent) =>
         \A fk \in DOMAIN fetched :
             LET k == fk[1]
                 key == fk[2]
-                ver == fetched[fk]
-            IN CASE k = "att" -> \A r \in oracle.att : (r.e = key /\ r.ver = ver /\ InEpoch(key, r.slot) /\ r.slot > now) => Covered("att", r.slot)
-                 [] k = "prop" -> \A r \in oracle.prop : (r.e = key /\ r.ver = ver /\ InEpoch(key, r.slot) /\ r.slot > now) => Covered("prop", r.slot)
-                 [] k = "sync" -> (Epoch(now) >= cfg.fork /\ \E r \in oracle.sync : r.p = key /\ r.ver = ver) =>
+                ver == fetched[fk].ver
+                av == fetched[fk].av
+            IN CASE k = "att" -> \A r \in oracle.att : (r.e = key /\ r.ver = ver /\ r.v \in av /\ InEpoch(key, r.slot) /\ r.slot > now) => Covered("att", r.slot)
+                 [] k = "prop" -> \A r \in oracle.prop : (r.e = key /\ r.ver = ver /\ r.v \in av /\ InEpoch(key, r.slot) /\ r.slot > now) => Covered("prop", r.slot)
+                 [] k = "sync" -> (Epoch(now) >= cfg.fork /\ \E r \in oracle.sync : r.p = key /\ r.ver = ver /\ r.v \in av) =>
                                      \A s \in SyncLo(key)..SyncHi(key) : s > now =>
                                          (<<"syncprep", s>> \in DOMAIN jobs \/ Covered("syncmsg", s))
 
-(* "it replaces the not-yet-run jobs of the affected epoch by jobs for the duties it then        *)
-(* obtains": at quiescence no job made from an older reply than the latest one is left, and the  *)
-(* latest reply is not older than what a head event has shown                                    *)
+(* "it replaces the not-yet-run jobs of the affected epoch by jobs for the duties it then       *)
+(* obtains": at quiescence no job made from an older reply than the latest one is left, and the *)
+(* latest reply is not older than what a head event has shown                                   *)
 JobKey(nm) == CASE nm[1] = "att" -> <<"att", Epoch(nm[2])>>
                 [] nm[1] \in {"prop", "early"} -> <<"prop", Epoch(nm[2])>>
                 [] nm[1] \in {"syncprep", "syncmsg"} -> <<"sync", Period(Epoch(nm[2] + 1))>>
@@ -618,8 +697,17 @@ NoStaleJob ==
     (up /\ Quiescent) =>
         \A nm \in DOMAIN jobs : nm[1] # "prepepoch" =>
             /\ JobKey(nm) \in DOMAIN fetched
-            /\ jobs[nm].ver = fetched[JobKey(nm)]
+            /\ jobs[nm].ver = fetched[JobKey(nm)].ver
+            /\ jobs[nm].av = fetched[JobKey(nm)].av
 ReorgActedOn ==
     (up /\ Quiescent) =>
-        \A fk \in DOMAIN fetched : fk \in DOMAIN shown => fetched[fk] >= shown[fk]
+        \A fk \in DOMAIN fetched : fk \in DOMAIN shown => fetched[fk].ver >= shown[fk]
+
+(* Every call ends: a goroutine of the controller that is not waiting at an interface of the    *)
+(* environment (a delayed reply or call, which the environment lets through in the end) can take*)
+(* its next step - whatever the calls before it on this instance did, whichever way they left.  *)
+(* (On the real controller: a goroutine that is still there when nothing moves any more and     *)
+(* that waits at none of the scripted interfaces - the driver's watchdog reports it as an event *)
+(* Hung, which no action of the trace specification allows.)                                    *)
+RefreshCompletes == (up /\ ~Settled) => ENABLED Internal
 =============================================================================
